@@ -43,36 +43,43 @@ def _uses_strings(terms):
     return False
 
 
+QUICK_FRACTION = 0.15      # first round of the portfolio: every back end with a short budget
+
+
 def discharge(pc, goal, want_smt2=False, all_backends=False, scale=1):
-    """Check validity of  And(pc) => goal."""
+    """Check validity of  And(pc) => goal.  The back ends (z3, cvc5, z3 4.8) are tried in two rounds: first
+    each with a short budget -- an obligation that one of them decides quickly should not wait for another
+    one's full timeout -- then each with the full budget."""
     t0 = time.time()
     if z3.is_true(goal):
         return Verdict('unsat', 'trivial', 0.0)
     s = z3.Solver()
-    s.set('timeout', Z3_TIMEOUT_MS * scale)
     for t in pc:
         s.add(t)
     s.add(z3.Not(goal))
-    smt2 = None
-    r = s.check()
-    dt = time.time() - t0
-    if want_smt2 or r == z3.unknown or all_backends:
-        smt2 = s.to_smt2()
-    if r == z3.unsat:
-        v = Verdict('unsat', 'z3-%s' % z3.get_version_string(), dt, smt2=smt2)
-        if all_backends:
-            v2 = _external(smt2, pc + [goal])
-            if v2 is not None and v2.status == 'sat':
-                return Verdict('unknown', 'disagreement', dt, smt2=smt2, reason='z3 unsat / %s sat' % v2.backend)
-        return v
-    if r == z3.sat:
-        m = s.model()
-        return Verdict('sat', 'z3-%s' % z3.get_version_string(), dt, model=m, smt2=smt2)
-    reason = s.reason_unknown()
-    v2 = _external(smt2, pc + [goal], scale)
-    if v2 is not None and v2.status != 'unknown':
-        v2.smt2 = smt2
-        return v2
+    smt2 = s.to_smt2() if (want_smt2 or all_backends) else None
+    reason = None
+    for frac in (QUICK_FRACTION, 1.0):
+        s.set('timeout', max(200, int(Z3_TIMEOUT_MS * scale * frac)))
+        r = s.check()
+        dt = time.time() - t0
+        if r == z3.unsat:
+            v = Verdict('unsat', 'z3-%s' % z3.get_version_string(), dt, smt2=smt2)
+            if all_backends:
+                v2 = _external(smt2, pc + [goal])
+                if v2 is not None and v2.status == 'sat':
+                    return Verdict('unknown', 'disagreement', dt, smt2=smt2, reason='z3 unsat / %s sat' % v2.backend)
+            return v
+        if r == z3.sat:
+            m = s.model()
+            return Verdict('sat', 'z3-%s' % z3.get_version_string(), dt, model=m, smt2=smt2)
+        reason = s.reason_unknown()
+        if smt2 is None:
+            smt2 = s.to_smt2()
+        v2 = _external(smt2, pc + [goal], scale * frac)
+        if v2 is not None and v2.status != 'unknown':
+            v2.smt2 = smt2
+            return v2
     return Verdict('unknown', 'z3+cvc5+z3-4.8', time.time() - t0, smt2=smt2, reason=reason)
 
 
@@ -87,8 +94,8 @@ def _external(smt2, terms, scale=1):
     try:
         t0 = time.time()
         for backend, cmd in (
-                ('cvc5-1.0.3', ['/usr/bin/cvc5', '--strings-exp', '--tlimit=%d' % (CVC5_TIMEOUT_S * 1000 * scale), fn]),
-                ('z3-4.8.12', ['/usr/bin/z3', '-T:%d' % (OLDZ3_TIMEOUT_S * scale), fn])):
+                ('cvc5-1.0.3', ['/usr/bin/cvc5', '--strings-exp', '--tlimit=%d' % max(500, int(CVC5_TIMEOUT_S * 1000 * scale)), fn]),
+                ('z3-4.8.12', ['/usr/bin/z3', '-t:%d' % max(500, int(OLDZ3_TIMEOUT_S * 1000 * scale)), fn])):
             try:
                 p = subprocess.run(cmd, capture_output=True, text=True, timeout=max(CVC5_TIMEOUT_S, OLDZ3_TIMEOUT_S) * scale + 5)
             except subprocess.TimeoutExpired:
